@@ -171,9 +171,9 @@ func cmdCheck(args []string) int {
 		nontrivial += r.Nontrivial
 		validated += r.Validated
 		exhaustive = exhaustive && r.Exhaustive
-		if len(samples) < 8 {
-			for _, s := range r.Samples {
-				if len(samples) < 8 {
+		if len(samples) < 12 {
+			for _, s := range r.Samples[:min(len(r.Samples), 3)] {
+				if len(samples) < 12 {
 					samples = append(samples, map[string]any{"unit": r.Name, "params": r.Params, "case": s})
 				}
 			}
